@@ -227,6 +227,7 @@ pub open spec fn vis_eq(a: Terminal, b: Terminal) -> bool {
 }
 
 /// two geometrically well-formed buffers with cell-wise equal views show the same screen
+/// [C12,C14] (auxiliary)
 pub proof fn lemma_view_eq_cells(a: Buffer, b: Buffer)
     requires
         a.wf_geom(), b.wf_geom(), a.cols == b.cols, a.rows == b.rows,
@@ -590,6 +591,7 @@ pub proof fn lemma_ni_print(o1: Terminal, o2: Terminal, f1: Terminal, f2: Termin
 }
 
 /// a chain of `n` prints of the same character from vis-equal terminals ends vis-equal
+/// [C12,C14] (auxiliary)
 pub proof fn lemma_ni_print_chain(tr1: Seq<Terminal>, tr2: Seq<Terminal>, ch: char, n: int, k: int)
     requires
         0 <= k <= n, tr1.len() == n + 1, tr2.len() == n + 1,
@@ -768,24 +770,28 @@ pub open spec fn sized(t: Terminal) -> bool {
 
 /// vis_eq without the requirement that the active buffer be at the terminal's size-independent
 /// parts: used between a screen switch and the reflow that follows it
+/// [C12,C14] (auxiliary)
 pub proof fn lemma_ni_save_cursor(o1: Terminal, o2: Terminal, f1: Terminal, f2: Terminal)
     requires o1.wf(), o2.wf(), vis_eq(o1, o2), post_save_cursor(o1, f1), post_save_cursor(o2, f2),
     ensures vis_eq(f1, f2), f1.wf(), f2.wf(),
 {
 }
 
+/// [C12,C14] (auxiliary)
 pub proof fn lemma_ni_restore_cursor(o1: Terminal, o2: Terminal, f1: Terminal, f2: Terminal)
     requires vis_eq(o1, o2), post_restore_cursor(o1, f1), post_restore_cursor(o2, f2),
     ensures vis_eq(f1, f2),
 {
 }
 
+/// [C12,C14] (auxiliary)
 pub proof fn lemma_ni_home(o1: Terminal, o2: Terminal, f1: Terminal, f2: Terminal)
     requires vis_eq(o1, o2), post_move_cursor_home(o1, f1), post_move_cursor_home(o2, f2),
     ensures vis_eq(f1, f2), f1.wf(), f2.wf(),
 {
 }
 
+/// [C12,C14] (auxiliary)
 pub proof fn lemma_ni_switch_alt(o1: Terminal, o2: Terminal, f1: Terminal, f2: Terminal)
     requires o1.wf(), o2.wf(), vis_eq(o1, o2), post_switch_to_alternate_buffer(o1, f1), post_switch_to_alternate_buffer(o2, f2),
     ensures vis_eq(f1, f2), sized(f1), sized(f2),
@@ -800,12 +806,14 @@ pub proof fn lemma_ni_switch_alt(o1: Terminal, o2: Terminal, f1: Terminal, f2: T
     }
 }
 
+/// [C12,C14] (auxiliary)
 pub proof fn lemma_ni_switch_primary(o1: Terminal, o2: Terminal, f1: Terminal, f2: Terminal)
     requires o1.wf(), o2.wf(), vis_eq(o1, o2), post_switch_to_primary_buffer(o1, f1), post_switch_to_primary_buffer(o2, f2),
     ensures vis_eq(f1, f2), sized(f1), sized(f2),
 {
 }
 
+/// [C12,C14] (auxiliary)
 pub proof fn lemma_ni_reflow_sized(o1: Terminal, o2: Terminal, f1: Terminal, f2: Terminal)
     requires vis_eq(o1, o2), sized(o1), sized(o2), post_reflow(o1, f1), post_reflow(o2, f2),
     ensures vis_eq(f1, f2), f1.wf(), f2.wf(),
@@ -880,6 +888,7 @@ pub proof fn lemma_ni_decrst_one(o1: Terminal, o2: Terminal, f1: Terminal, f2: T
     }
 }
 
+/// [C12,C14] (auxiliary)
 pub proof fn lemma_ni_decset_chain(tr1: Seq<Terminal>, tr2: Seq<Terminal>, modes: Seq<DecMode>, k: int)
     requires
         0 <= k <= modes.len(), tr1.len() == modes.len() + 1, tr2.len() == modes.len() + 1,
@@ -898,6 +907,7 @@ pub proof fn lemma_ni_decset_chain(tr1: Seq<Terminal>, tr2: Seq<Terminal>, modes
     }
 }
 
+/// [C12,C14] (auxiliary)
 pub proof fn lemma_ni_decrst_chain(tr1: Seq<Terminal>, tr2: Seq<Terminal>, modes: Seq<DecMode>, k: int)
     requires
         0 <= k <= modes.len(), tr1.len() == modes.len() + 1, tr2.len() == modes.len() + 1,
@@ -1021,6 +1031,7 @@ pub proof fn lemma_changes_silent(o: Terminal, f: Terminal, r: Vec<usize>)
 {
 }
 
+/// [C12,C14] (auxiliary)
 pub proof fn lemma_vis_eq_trans(a: Terminal, b: Terminal, c: Terminal)
     requires
         vis_eq(a, b), vis_eq(b, c),
@@ -1076,11 +1087,882 @@ pub proof fn lemma_c12_chunking(tr1: Seq<Terminal>, tr2: Seq<Terminal>, mid1: Se
 }
 
 /// every control function's postcondition includes the invariant
+/// [C12,C14] (auxiliary)
 pub proof fn lemma_exec_post_wf(o: Terminal, f: Terminal, fun: Function)
     requires
         o.wf(), exec_post(o, f, fun),
     ensures
         f.wf(),
+{
+}
+
+// ---- C14: limited vs unlimited scrollback -------------------------------------------------------
+
+pub open spec fn primary(t: Terminal) -> Buffer {
+    if t.active_buffer_type == BufferType::Primary { t.buffer } else { t.other_buffer }
+}
+
+pub open spec fn lines_v(b: Buffer) -> Seq<LineV> {
+    Seq::new(b.lines@.len(), |i: int| b.lines@[i].v())
+}
+
+/// the buffer only grows at the boundary between scrollback and view: everything that was
+/// scrollback stays, line for line
+pub open spec fn grows(o: Buffer, f: Buffer) -> bool {
+    &&& o.off() >= 0
+    &&& f.len() >= o.len()
+    &&& f.rows == o.rows
+    &&& forall|i: int| 0 <= i < o.off() ==> (#[trigger] f.lines@[i]).v() == o.lines@[i].v()
+}
+
+/// two runs push the same lines (same number, same content) into their scrollbacks
+pub open spec fn push_eq(o1: Buffer, f1: Buffer, o2: Buffer, f2: Buffer) -> bool {
+    &&& f1.len() - o1.len() == f2.len() - o2.len()
+    &&& forall|j: int| 0 <= j < f1.len() - o1.len() ==> (#[trigger] f1.lines@[o1.off() + j]).v() == f2.lines@[o2.off() + j].v()
+}
+
+/// [C14] Bs: the primary buffer's scrollback only grows, and equally in both runs
+pub proof fn lemma_grow_bs(o1: Terminal, o2: Terminal, f1: Terminal, f2: Terminal, fun: Function)
+    requires
+        o1.wf(), o2.wf(), vis_eq(o1, o2), fun is Bs,
+        exec_post(o1, f1, fun), exec_post(o2, f2, fun),
+    ensures
+        grows(primary(o1), primary(f1)), grows(primary(o2), primary(f2)),
+        push_eq(primary(o1), primary(f1), primary(o2), primary(f2)),
+{
+}
+
+/// [C14] Cbt: the primary buffer's scrollback only grows, and equally in both runs
+pub proof fn lemma_grow_cbt(o1: Terminal, o2: Terminal, f1: Terminal, f2: Terminal, fun: Function)
+    requires
+        o1.wf(), o2.wf(), vis_eq(o1, o2), fun is Cbt,
+        exec_post(o1, f1, fun), exec_post(o2, f2, fun),
+    ensures
+        grows(primary(o1), primary(f1)), grows(primary(o2), primary(f2)),
+        push_eq(primary(o1), primary(f1), primary(o2), primary(f2)),
+{
+}
+
+/// [C14] Cha: the primary buffer's scrollback only grows, and equally in both runs
+pub proof fn lemma_grow_cha(o1: Terminal, o2: Terminal, f1: Terminal, f2: Terminal, fun: Function)
+    requires
+        o1.wf(), o2.wf(), vis_eq(o1, o2), fun is Cha,
+        exec_post(o1, f1, fun), exec_post(o2, f2, fun),
+    ensures
+        grows(primary(o1), primary(f1)), grows(primary(o2), primary(f2)),
+        push_eq(primary(o1), primary(f1), primary(o2), primary(f2)),
+{
+}
+
+/// [C14] Cht: the primary buffer's scrollback only grows, and equally in both runs
+pub proof fn lemma_grow_cht(o1: Terminal, o2: Terminal, f1: Terminal, f2: Terminal, fun: Function)
+    requires
+        o1.wf(), o2.wf(), vis_eq(o1, o2), fun is Cht,
+        exec_post(o1, f1, fun), exec_post(o2, f2, fun),
+    ensures
+        grows(primary(o1), primary(f1)), grows(primary(o2), primary(f2)),
+        push_eq(primary(o1), primary(f1), primary(o2), primary(f2)),
+{
+}
+
+/// [C14] Cnl: the primary buffer's scrollback only grows, and equally in both runs
+pub proof fn lemma_grow_cnl(o1: Terminal, o2: Terminal, f1: Terminal, f2: Terminal, fun: Function)
+    requires
+        o1.wf(), o2.wf(), vis_eq(o1, o2), fun is Cnl,
+        exec_post(o1, f1, fun), exec_post(o2, f2, fun),
+    ensures
+        grows(primary(o1), primary(f1)), grows(primary(o2), primary(f2)),
+        push_eq(primary(o1), primary(f1), primary(o2), primary(f2)),
+{
+}
+
+/// [C14] Cpl: the primary buffer's scrollback only grows, and equally in both runs
+pub proof fn lemma_grow_cpl(o1: Terminal, o2: Terminal, f1: Terminal, f2: Terminal, fun: Function)
+    requires
+        o1.wf(), o2.wf(), vis_eq(o1, o2), fun is Cpl,
+        exec_post(o1, f1, fun), exec_post(o2, f2, fun),
+    ensures
+        grows(primary(o1), primary(f1)), grows(primary(o2), primary(f2)),
+        push_eq(primary(o1), primary(f1), primary(o2), primary(f2)),
+{
+}
+
+/// [C14] Cr: the primary buffer's scrollback only grows, and equally in both runs
+pub proof fn lemma_grow_cr(o1: Terminal, o2: Terminal, f1: Terminal, f2: Terminal, fun: Function)
+    requires
+        o1.wf(), o2.wf(), vis_eq(o1, o2), fun is Cr,
+        exec_post(o1, f1, fun), exec_post(o2, f2, fun),
+    ensures
+        grows(primary(o1), primary(f1)), grows(primary(o2), primary(f2)),
+        push_eq(primary(o1), primary(f1), primary(o2), primary(f2)),
+{
+}
+
+/// [C14] Ctc: the primary buffer's scrollback only grows, and equally in both runs
+pub proof fn lemma_grow_ctc(o1: Terminal, o2: Terminal, f1: Terminal, f2: Terminal, fun: Function)
+    requires
+        o1.wf(), o2.wf(), vis_eq(o1, o2), fun is Ctc,
+        exec_post(o1, f1, fun), exec_post(o2, f2, fun),
+    ensures
+        grows(primary(o1), primary(f1)), grows(primary(o2), primary(f2)),
+        push_eq(primary(o1), primary(f1), primary(o2), primary(f2)),
+{
+}
+
+/// [C14] Cub: the primary buffer's scrollback only grows, and equally in both runs
+pub proof fn lemma_grow_cub(o1: Terminal, o2: Terminal, f1: Terminal, f2: Terminal, fun: Function)
+    requires
+        o1.wf(), o2.wf(), vis_eq(o1, o2), fun is Cub,
+        exec_post(o1, f1, fun), exec_post(o2, f2, fun),
+    ensures
+        grows(primary(o1), primary(f1)), grows(primary(o2), primary(f2)),
+        push_eq(primary(o1), primary(f1), primary(o2), primary(f2)),
+{
+}
+
+/// [C14] Cud: the primary buffer's scrollback only grows, and equally in both runs
+pub proof fn lemma_grow_cud(o1: Terminal, o2: Terminal, f1: Terminal, f2: Terminal, fun: Function)
+    requires
+        o1.wf(), o2.wf(), vis_eq(o1, o2), fun is Cud,
+        exec_post(o1, f1, fun), exec_post(o2, f2, fun),
+    ensures
+        grows(primary(o1), primary(f1)), grows(primary(o2), primary(f2)),
+        push_eq(primary(o1), primary(f1), primary(o2), primary(f2)),
+{
+}
+
+/// [C14] Cuf: the primary buffer's scrollback only grows, and equally in both runs
+pub proof fn lemma_grow_cuf(o1: Terminal, o2: Terminal, f1: Terminal, f2: Terminal, fun: Function)
+    requires
+        o1.wf(), o2.wf(), vis_eq(o1, o2), fun is Cuf,
+        exec_post(o1, f1, fun), exec_post(o2, f2, fun),
+    ensures
+        grows(primary(o1), primary(f1)), grows(primary(o2), primary(f2)),
+        push_eq(primary(o1), primary(f1), primary(o2), primary(f2)),
+{
+}
+
+/// [C14] Cup: the primary buffer's scrollback only grows, and equally in both runs
+pub proof fn lemma_grow_cup(o1: Terminal, o2: Terminal, f1: Terminal, f2: Terminal, fun: Function)
+    requires
+        o1.wf(), o2.wf(), vis_eq(o1, o2), fun is Cup,
+        exec_post(o1, f1, fun), exec_post(o2, f2, fun),
+    ensures
+        grows(primary(o1), primary(f1)), grows(primary(o2), primary(f2)),
+        push_eq(primary(o1), primary(f1), primary(o2), primary(f2)),
+{
+}
+
+/// [C14] Cuu: the primary buffer's scrollback only grows, and equally in both runs
+pub proof fn lemma_grow_cuu(o1: Terminal, o2: Terminal, f1: Terminal, f2: Terminal, fun: Function)
+    requires
+        o1.wf(), o2.wf(), vis_eq(o1, o2), fun is Cuu,
+        exec_post(o1, f1, fun), exec_post(o2, f2, fun),
+    ensures
+        grows(primary(o1), primary(f1)), grows(primary(o2), primary(f2)),
+        push_eq(primary(o1), primary(f1), primary(o2), primary(f2)),
+{
+}
+
+/// [C14] Dch: the primary buffer's scrollback only grows, and equally in both runs
+pub proof fn lemma_grow_dch(o1: Terminal, o2: Terminal, f1: Terminal, f2: Terminal, fun: Function)
+    requires
+        o1.wf(), o2.wf(), vis_eq(o1, o2), fun is Dch,
+        exec_post(o1, f1, fun), exec_post(o2, f2, fun),
+    ensures
+        grows(primary(o1), primary(f1)), grows(primary(o2), primary(f2)),
+        push_eq(primary(o1), primary(f1), primary(o2), primary(f2)),
+{
+}
+
+/// [C14] Decaln: the primary buffer's scrollback only grows, and equally in both runs
+pub proof fn lemma_grow_decaln(o1: Terminal, o2: Terminal, f1: Terminal, f2: Terminal, fun: Function)
+    requires
+        o1.wf(), o2.wf(), vis_eq(o1, o2), fun is Decaln,
+        exec_post(o1, f1, fun), exec_post(o2, f2, fun),
+    ensures
+        grows(primary(o1), primary(f1)), grows(primary(o2), primary(f2)),
+        push_eq(primary(o1), primary(f1), primary(o2), primary(f2)),
+{
+}
+
+/// [C14] Decrc: the primary buffer's scrollback only grows, and equally in both runs
+pub proof fn lemma_grow_decrc(o1: Terminal, o2: Terminal, f1: Terminal, f2: Terminal, fun: Function)
+    requires
+        o1.wf(), o2.wf(), vis_eq(o1, o2), fun is Decrc,
+        exec_post(o1, f1, fun), exec_post(o2, f2, fun),
+    ensures
+        grows(primary(o1), primary(f1)), grows(primary(o2), primary(f2)),
+        push_eq(primary(o1), primary(f1), primary(o2), primary(f2)),
+{
+}
+
+/// [C14] Decsc: the primary buffer's scrollback only grows, and equally in both runs
+pub proof fn lemma_grow_decsc(o1: Terminal, o2: Terminal, f1: Terminal, f2: Terminal, fun: Function)
+    requires
+        o1.wf(), o2.wf(), vis_eq(o1, o2), fun is Decsc,
+        exec_post(o1, f1, fun), exec_post(o2, f2, fun),
+    ensures
+        grows(primary(o1), primary(f1)), grows(primary(o2), primary(f2)),
+        push_eq(primary(o1), primary(f1), primary(o2), primary(f2)),
+{
+}
+
+/// [C14] Decstbm: the primary buffer's scrollback only grows, and equally in both runs
+pub proof fn lemma_grow_decstbm(o1: Terminal, o2: Terminal, f1: Terminal, f2: Terminal, fun: Function)
+    requires
+        o1.wf(), o2.wf(), vis_eq(o1, o2), fun is Decstbm,
+        exec_post(o1, f1, fun), exec_post(o2, f2, fun),
+    ensures
+        grows(primary(o1), primary(f1)), grows(primary(o2), primary(f2)),
+        push_eq(primary(o1), primary(f1), primary(o2), primary(f2)),
+{
+}
+
+/// [C14] Decstr: the primary buffer's scrollback only grows, and equally in both runs
+pub proof fn lemma_grow_decstr(o1: Terminal, o2: Terminal, f1: Terminal, f2: Terminal, fun: Function)
+    requires
+        o1.wf(), o2.wf(), vis_eq(o1, o2), fun is Decstr,
+        exec_post(o1, f1, fun), exec_post(o2, f2, fun),
+    ensures
+        grows(primary(o1), primary(f1)), grows(primary(o2), primary(f2)),
+        push_eq(primary(o1), primary(f1), primary(o2), primary(f2)),
+{
+}
+
+/// [C14] Dl: the primary buffer's scrollback only grows, and equally in both runs
+pub proof fn lemma_grow_dl(o1: Terminal, o2: Terminal, f1: Terminal, f2: Terminal, fun: Function)
+    requires
+        o1.wf(), o2.wf(), vis_eq(o1, o2), fun is Dl,
+        exec_post(o1, f1, fun), exec_post(o2, f2, fun),
+    ensures
+        grows(primary(o1), primary(f1)), grows(primary(o2), primary(f2)),
+        push_eq(primary(o1), primary(f1), primary(o2), primary(f2)),
+{
+}
+
+/// [C14] Ech: the primary buffer's scrollback only grows, and equally in both runs
+pub proof fn lemma_grow_ech(o1: Terminal, o2: Terminal, f1: Terminal, f2: Terminal, fun: Function)
+    requires
+        o1.wf(), o2.wf(), vis_eq(o1, o2), fun is Ech,
+        exec_post(o1, f1, fun), exec_post(o2, f2, fun),
+    ensures
+        grows(primary(o1), primary(f1)), grows(primary(o2), primary(f2)),
+        push_eq(primary(o1), primary(f1), primary(o2), primary(f2)),
+{
+}
+
+/// [C14] Ed: the primary buffer's scrollback only grows, and equally in both runs
+pub proof fn lemma_grow_ed(o1: Terminal, o2: Terminal, f1: Terminal, f2: Terminal, fun: Function)
+    requires
+        o1.wf(), o2.wf(), vis_eq(o1, o2), fun is Ed,
+        exec_post(o1, f1, fun), exec_post(o2, f2, fun),
+    ensures
+        grows(primary(o1), primary(f1)), grows(primary(o2), primary(f2)),
+        push_eq(primary(o1), primary(f1), primary(o2), primary(f2)),
+{
+}
+
+/// [C14] El: the primary buffer's scrollback only grows, and equally in both runs
+pub proof fn lemma_grow_el(o1: Terminal, o2: Terminal, f1: Terminal, f2: Terminal, fun: Function)
+    requires
+        o1.wf(), o2.wf(), vis_eq(o1, o2), fun is El,
+        exec_post(o1, f1, fun), exec_post(o2, f2, fun),
+    ensures
+        grows(primary(o1), primary(f1)), grows(primary(o2), primary(f2)),
+        push_eq(primary(o1), primary(f1), primary(o2), primary(f2)),
+{
+}
+
+/// [C14] G1d4: the primary buffer's scrollback only grows, and equally in both runs
+pub proof fn lemma_grow_g1d4(o1: Terminal, o2: Terminal, f1: Terminal, f2: Terminal, fun: Function)
+    requires
+        o1.wf(), o2.wf(), vis_eq(o1, o2), fun is G1d4,
+        exec_post(o1, f1, fun), exec_post(o2, f2, fun),
+    ensures
+        grows(primary(o1), primary(f1)), grows(primary(o2), primary(f2)),
+        push_eq(primary(o1), primary(f1), primary(o2), primary(f2)),
+{
+}
+
+/// [C14] Gzd4: the primary buffer's scrollback only grows, and equally in both runs
+pub proof fn lemma_grow_gzd4(o1: Terminal, o2: Terminal, f1: Terminal, f2: Terminal, fun: Function)
+    requires
+        o1.wf(), o2.wf(), vis_eq(o1, o2), fun is Gzd4,
+        exec_post(o1, f1, fun), exec_post(o2, f2, fun),
+    ensures
+        grows(primary(o1), primary(f1)), grows(primary(o2), primary(f2)),
+        push_eq(primary(o1), primary(f1), primary(o2), primary(f2)),
+{
+}
+
+/// [C14] Ht: the primary buffer's scrollback only grows, and equally in both runs
+pub proof fn lemma_grow_ht(o1: Terminal, o2: Terminal, f1: Terminal, f2: Terminal, fun: Function)
+    requires
+        o1.wf(), o2.wf(), vis_eq(o1, o2), fun is Ht,
+        exec_post(o1, f1, fun), exec_post(o2, f2, fun),
+    ensures
+        grows(primary(o1), primary(f1)), grows(primary(o2), primary(f2)),
+        push_eq(primary(o1), primary(f1), primary(o2), primary(f2)),
+{
+}
+
+/// [C14] Hts: the primary buffer's scrollback only grows, and equally in both runs
+pub proof fn lemma_grow_hts(o1: Terminal, o2: Terminal, f1: Terminal, f2: Terminal, fun: Function)
+    requires
+        o1.wf(), o2.wf(), vis_eq(o1, o2), fun is Hts,
+        exec_post(o1, f1, fun), exec_post(o2, f2, fun),
+    ensures
+        grows(primary(o1), primary(f1)), grows(primary(o2), primary(f2)),
+        push_eq(primary(o1), primary(f1), primary(o2), primary(f2)),
+{
+}
+
+/// [C14] Ich: the primary buffer's scrollback only grows, and equally in both runs
+pub proof fn lemma_grow_ich(o1: Terminal, o2: Terminal, f1: Terminal, f2: Terminal, fun: Function)
+    requires
+        o1.wf(), o2.wf(), vis_eq(o1, o2), fun is Ich,
+        exec_post(o1, f1, fun), exec_post(o2, f2, fun),
+    ensures
+        grows(primary(o1), primary(f1)), grows(primary(o2), primary(f2)),
+        push_eq(primary(o1), primary(f1), primary(o2), primary(f2)),
+{
+}
+
+/// [C14] Il: the primary buffer's scrollback only grows, and equally in both runs
+pub proof fn lemma_grow_il(o1: Terminal, o2: Terminal, f1: Terminal, f2: Terminal, fun: Function)
+    requires
+        o1.wf(), o2.wf(), vis_eq(o1, o2), fun is Il,
+        exec_post(o1, f1, fun), exec_post(o2, f2, fun),
+    ensures
+        grows(primary(o1), primary(f1)), grows(primary(o2), primary(f2)),
+        push_eq(primary(o1), primary(f1), primary(o2), primary(f2)),
+{
+}
+
+/// [C14] Lf: the primary buffer's scrollback only grows, and equally in both runs
+pub proof fn lemma_grow_lf(o1: Terminal, o2: Terminal, f1: Terminal, f2: Terminal, fun: Function)
+    requires
+        o1.wf(), o2.wf(), vis_eq(o1, o2), fun is Lf,
+        exec_post(o1, f1, fun), exec_post(o2, f2, fun),
+    ensures
+        grows(primary(o1), primary(f1)), grows(primary(o2), primary(f2)),
+        push_eq(primary(o1), primary(f1), primary(o2), primary(f2)),
+{
+}
+
+/// [C14] Nel: the primary buffer's scrollback only grows, and equally in both runs
+pub proof fn lemma_grow_nel(o1: Terminal, o2: Terminal, f1: Terminal, f2: Terminal, fun: Function)
+    requires
+        o1.wf(), o2.wf(), vis_eq(o1, o2), fun is Nel,
+        exec_post(o1, f1, fun), exec_post(o2, f2, fun),
+    ensures
+        grows(primary(o1), primary(f1)), grows(primary(o2), primary(f2)),
+        push_eq(primary(o1), primary(f1), primary(o2), primary(f2)),
+{
+}
+
+/// [C14] Print: the primary buffer's scrollback only grows, and equally in both runs
+pub proof fn lemma_grow_print(o1: Terminal, o2: Terminal, f1: Terminal, f2: Terminal, fun: Function)
+    requires
+        o1.wf(), o2.wf(), vis_eq(o1, o2), fun is Print,
+        exec_post(o1, f1, fun), exec_post(o2, f2, fun),
+    ensures
+        grows(primary(o1), primary(f1)), grows(primary(o2), primary(f2)),
+        push_eq(primary(o1), primary(f1), primary(o2), primary(f2)),
+{
+}
+
+/// [C14] Ri: the primary buffer's scrollback only grows, and equally in both runs
+pub proof fn lemma_grow_ri(o1: Terminal, o2: Terminal, f1: Terminal, f2: Terminal, fun: Function)
+    requires
+        o1.wf(), o2.wf(), vis_eq(o1, o2), fun is Ri,
+        exec_post(o1, f1, fun), exec_post(o2, f2, fun),
+    ensures
+        grows(primary(o1), primary(f1)), grows(primary(o2), primary(f2)),
+        push_eq(primary(o1), primary(f1), primary(o2), primary(f2)),
+{
+}
+
+/// [C14] Rm: the primary buffer's scrollback only grows, and equally in both runs
+pub proof fn lemma_grow_rm(o1: Terminal, o2: Terminal, f1: Terminal, f2: Terminal, fun: Function)
+    requires
+        o1.wf(), o2.wf(), vis_eq(o1, o2), fun is Rm,
+        exec_post(o1, f1, fun), exec_post(o2, f2, fun),
+    ensures
+        grows(primary(o1), primary(f1)), grows(primary(o2), primary(f2)),
+        push_eq(primary(o1), primary(f1), primary(o2), primary(f2)),
+{
+}
+
+/// [C14] Scorc: the primary buffer's scrollback only grows, and equally in both runs
+pub proof fn lemma_grow_scorc(o1: Terminal, o2: Terminal, f1: Terminal, f2: Terminal, fun: Function)
+    requires
+        o1.wf(), o2.wf(), vis_eq(o1, o2), fun is Scorc,
+        exec_post(o1, f1, fun), exec_post(o2, f2, fun),
+    ensures
+        grows(primary(o1), primary(f1)), grows(primary(o2), primary(f2)),
+        push_eq(primary(o1), primary(f1), primary(o2), primary(f2)),
+{
+}
+
+/// [C14] Scosc: the primary buffer's scrollback only grows, and equally in both runs
+pub proof fn lemma_grow_scosc(o1: Terminal, o2: Terminal, f1: Terminal, f2: Terminal, fun: Function)
+    requires
+        o1.wf(), o2.wf(), vis_eq(o1, o2), fun is Scosc,
+        exec_post(o1, f1, fun), exec_post(o2, f2, fun),
+    ensures
+        grows(primary(o1), primary(f1)), grows(primary(o2), primary(f2)),
+        push_eq(primary(o1), primary(f1), primary(o2), primary(f2)),
+{
+}
+
+/// [C14] Sd: the primary buffer's scrollback only grows, and equally in both runs
+pub proof fn lemma_grow_sd(o1: Terminal, o2: Terminal, f1: Terminal, f2: Terminal, fun: Function)
+    requires
+        o1.wf(), o2.wf(), vis_eq(o1, o2), fun is Sd,
+        exec_post(o1, f1, fun), exec_post(o2, f2, fun),
+    ensures
+        grows(primary(o1), primary(f1)), grows(primary(o2), primary(f2)),
+        push_eq(primary(o1), primary(f1), primary(o2), primary(f2)),
+{
+}
+
+/// [C14] Sgr: the primary buffer's scrollback only grows, and equally in both runs
+pub proof fn lemma_grow_sgr(o1: Terminal, o2: Terminal, f1: Terminal, f2: Terminal, fun: Function)
+    requires
+        o1.wf(), o2.wf(), vis_eq(o1, o2), fun is Sgr,
+        exec_post(o1, f1, fun), exec_post(o2, f2, fun),
+    ensures
+        grows(primary(o1), primary(f1)), grows(primary(o2), primary(f2)),
+        push_eq(primary(o1), primary(f1), primary(o2), primary(f2)),
+{
+}
+
+/// [C14] Si: the primary buffer's scrollback only grows, and equally in both runs
+pub proof fn lemma_grow_si(o1: Terminal, o2: Terminal, f1: Terminal, f2: Terminal, fun: Function)
+    requires
+        o1.wf(), o2.wf(), vis_eq(o1, o2), fun is Si,
+        exec_post(o1, f1, fun), exec_post(o2, f2, fun),
+    ensures
+        grows(primary(o1), primary(f1)), grows(primary(o2), primary(f2)),
+        push_eq(primary(o1), primary(f1), primary(o2), primary(f2)),
+{
+}
+
+/// [C14] Sm: the primary buffer's scrollback only grows, and equally in both runs
+pub proof fn lemma_grow_sm(o1: Terminal, o2: Terminal, f1: Terminal, f2: Terminal, fun: Function)
+    requires
+        o1.wf(), o2.wf(), vis_eq(o1, o2), fun is Sm,
+        exec_post(o1, f1, fun), exec_post(o2, f2, fun),
+    ensures
+        grows(primary(o1), primary(f1)), grows(primary(o2), primary(f2)),
+        push_eq(primary(o1), primary(f1), primary(o2), primary(f2)),
+{
+}
+
+/// [C14] So: the primary buffer's scrollback only grows, and equally in both runs
+pub proof fn lemma_grow_so(o1: Terminal, o2: Terminal, f1: Terminal, f2: Terminal, fun: Function)
+    requires
+        o1.wf(), o2.wf(), vis_eq(o1, o2), fun is So,
+        exec_post(o1, f1, fun), exec_post(o2, f2, fun),
+    ensures
+        grows(primary(o1), primary(f1)), grows(primary(o2), primary(f2)),
+        push_eq(primary(o1), primary(f1), primary(o2), primary(f2)),
+{
+}
+
+/// [C14] Su: the primary buffer's scrollback only grows, and equally in both runs
+pub proof fn lemma_grow_su(o1: Terminal, o2: Terminal, f1: Terminal, f2: Terminal, fun: Function)
+    requires
+        o1.wf(), o2.wf(), vis_eq(o1, o2), fun is Su,
+        exec_post(o1, f1, fun), exec_post(o2, f2, fun),
+    ensures
+        grows(primary(o1), primary(f1)), grows(primary(o2), primary(f2)),
+        push_eq(primary(o1), primary(f1), primary(o2), primary(f2)),
+{
+}
+
+/// [C14] Tbc: the primary buffer's scrollback only grows, and equally in both runs
+pub proof fn lemma_grow_tbc(o1: Terminal, o2: Terminal, f1: Terminal, f2: Terminal, fun: Function)
+    requires
+        o1.wf(), o2.wf(), vis_eq(o1, o2), fun is Tbc,
+        exec_post(o1, f1, fun), exec_post(o2, f2, fun),
+    ensures
+        grows(primary(o1), primary(f1)), grows(primary(o2), primary(f2)),
+        push_eq(primary(o1), primary(f1), primary(o2), primary(f2)),
+{
+}
+
+/// [C14] Vpa: the primary buffer's scrollback only grows, and equally in both runs
+pub proof fn lemma_grow_vpa(o1: Terminal, o2: Terminal, f1: Terminal, f2: Terminal, fun: Function)
+    requires
+        o1.wf(), o2.wf(), vis_eq(o1, o2), fun is Vpa,
+        exec_post(o1, f1, fun), exec_post(o2, f2, fun),
+    ensures
+        grows(primary(o1), primary(f1)), grows(primary(o2), primary(f2)),
+        push_eq(primary(o1), primary(f1), primary(o2), primary(f2)),
+{
+}
+
+/// [C14] Vpr: the primary buffer's scrollback only grows, and equally in both runs
+pub proof fn lemma_grow_vpr(o1: Terminal, o2: Terminal, f1: Terminal, f2: Terminal, fun: Function)
+    requires
+        o1.wf(), o2.wf(), vis_eq(o1, o2), fun is Vpr,
+        exec_post(o1, f1, fun), exec_post(o2, f2, fun),
+    ensures
+        grows(primary(o1), primary(f1)), grows(primary(o2), primary(f2)),
+        push_eq(primary(o1), primary(f1), primary(o2), primary(f2)),
+{
+}
+
+/// growth composes
+/// [C14] (auxiliary)
+pub proof fn lemma_grow_trans(a1: Buffer, b1: Buffer, c1: Buffer, a2: Buffer, b2: Buffer, c2: Buffer)
+    requires
+        grows(a1, b1), grows(b1, c1), grows(a2, b2), grows(b2, c2),
+        push_eq(a1, b1, a2, b2), push_eq(b1, c1, b2, c2),
+    ensures
+        grows(a1, c1), grows(a2, c2), push_eq(a1, c1, a2, c2),
+{
+    let k = b1.len() - a1.len();
+    assert forall|j: int| 0 <= j < c1.len() - a1.len() implies (#[trigger] c1.lines@[a1.off() + j]).v() == c2.lines@[a2.off() + j].v() by {
+        if j < k {
+            assert(c1.lines@[a1.off() + j].v() == b1.lines@[a1.off() + j].v());
+            assert(c2.lines@[a2.off() + j].v() == b2.lines@[a2.off() + j].v());
+            assert(b1.lines@[a1.off() + j].v() == b2.lines@[a2.off() + j].v());
+        } else {
+            assert(c1.lines@[b1.off() + (j - k)].v() == c2.lines@[b2.off() + (j - k)].v());
+        }
+    }
+}
+
+/// a chain of prints: growth facts accumulate
+/// [C14] (auxiliary)
+pub proof fn lemma_grow_print_chain(tr1: Seq<Terminal>, tr2: Seq<Terminal>, ch: char, n: int, k: int)
+    requires
+        0 <= k <= n, tr1.len() == n + 1, tr2.len() == n + 1,
+        tr1[0].wf(), tr2[0].wf(), vis_eq(tr1[0], tr2[0]),
+        forall|i: int| 0 <= i < n ==> post_print(#[trigger] tr1[i], tr1[i + 1], ch),
+        forall|i: int| 0 <= i < n ==> post_print(#[trigger] tr2[i], tr2[i + 1], ch),
+    ensures
+        grows(primary(tr1[0]), primary(tr1[k])), grows(primary(tr2[0]), primary(tr2[k])),
+        push_eq(primary(tr1[0]), primary(tr1[k]), primary(tr2[0]), primary(tr2[k])),
+    decreases k,
+{
+    if k > 0 {
+        lemma_grow_print_chain(tr1, tr2, ch, n, k - 1);
+        lemma_ni_print_chain(tr1, tr2, ch, n, k - 1);
+        assert(post_print(tr1[k - 1], tr1[k - 1 + 1], ch));
+        assert(post_print(tr2[k - 1], tr2[k - 1 + 1], ch));
+        lemma_grow_print(tr1[k - 1], tr2[k - 1], tr1[k], tr2[k], Function::Print(ch));
+        lemma_grow_trans(primary(tr1[0]), primary(tr1[k - 1]), primary(tr1[k]), primary(tr2[0]), primary(tr2[k - 1]), primary(tr2[k]));
+    }
+}
+
+/// [C14] Rep
+pub proof fn lemma_grow_rep(o1: Terminal, o2: Terminal, f1: Terminal, f2: Terminal, fun: Function)
+    requires
+        o1.wf(), o2.wf(), vis_eq(o1, o2), fun is Rep,
+        exec_post(o1, f1, fun), exec_post(o2, f2, fun),
+    ensures
+        grows(primary(o1), primary(f1)), grows(primary(o2), primary(f2)),
+        push_eq(primary(o1), primary(f1), primary(o2), primary(f2)),
+{
+    let n = fun->Rep_0;
+    if o1.cursor.col > 0 {
+        let k = param_or(n, 1);
+        assert(o1.buffer.row(o1.cursor.row as int).v() == o2.buffer.row(o2.cursor.row as int).v());
+        let ch = o1.buffer.row(o1.cursor.row as int).cells@[o1.cursor.col - 1].0;
+        let tr1 = choose|tr: Seq<Terminal>| #[trigger] tr.len() == k + 1 && tr[0] == o1 && tr[k] == f1 && (forall|i: int| 0 <= i < k ==> post_print(#[trigger] tr[i], tr[i + 1], ch));
+        let tr2 = choose|tr: Seq<Terminal>| #[trigger] tr.len() == k + 1 && tr[0] == o2 && tr[k] == f2 && (forall|i: int| 0 <= i < k ==> post_print(#[trigger] tr[i], tr[i + 1], ch));
+        lemma_grow_print_chain(tr1, tr2, ch, k, k);
+    }
+}
+
+/// [C14] one DECSET / DECRST mode never adds to or alters the primary's lines (screen switches
+/// only swap the buffers; with the inactive buffer at the terminal's size reflow is the identity)
+pub proof fn lemma_grow_decset_one(o1: Terminal, o2: Terminal, f1: Terminal, f2: Terminal, m: DecMode)
+    requires
+        o1.wf(), o2.wf(), vis_eq(o1, o2),
+        decset_one(o1, f1, m), decset_one(o2, f2, m),
+    ensures
+        grows(primary(o1), primary(f1)), grows(primary(o2), primary(f2)),
+        push_eq(primary(o1), primary(f1), primary(o2), primary(f2)),
+{
+    reveal(decset_one);
+}
+
+/// [C14] (auxiliary)
+pub proof fn lemma_grow_decrst_one(o1: Terminal, o2: Terminal, f1: Terminal, f2: Terminal, m: DecMode)
+    requires
+        o1.wf(), o2.wf(), vis_eq(o1, o2),
+        decrst_one(o1, f1, m), decrst_one(o2, f2, m),
+    ensures
+        grows(primary(o1), primary(f1)), grows(primary(o2), primary(f2)),
+        push_eq(primary(o1), primary(f1), primary(o2), primary(f2)),
+{
+    reveal(decrst_one);
+}
+
+/// [C14] (auxiliary)
+pub proof fn lemma_grow_decset_chain(tr1: Seq<Terminal>, tr2: Seq<Terminal>, modes: Seq<DecMode>, k: int)
+    requires
+        0 <= k <= modes.len(), tr1.len() == modes.len() + 1, tr2.len() == modes.len() + 1,
+        tr1[0].wf(), tr2[0].wf(), vis_eq(tr1[0], tr2[0]),
+        forall|i: int| 0 <= i < modes.len() ==> decset_one(#[trigger] tr1[i], tr1[i + 1], modes[i]),
+        forall|i: int| 0 <= i < modes.len() ==> decset_one(#[trigger] tr2[i], tr2[i + 1], modes[i]),
+    ensures
+        grows(primary(tr1[0]), primary(tr1[k])), grows(primary(tr2[0]), primary(tr2[k])),
+        push_eq(primary(tr1[0]), primary(tr1[k]), primary(tr2[0]), primary(tr2[k])),
+    decreases k,
+{
+    if k > 0 {
+        lemma_grow_decset_chain(tr1, tr2, modes, k - 1);
+        lemma_ni_decset_chain(tr1, tr2, modes, k - 1);
+        assert(decset_one(tr1[k - 1], tr1[k - 1 + 1], modes[k - 1]));
+        assert(decset_one(tr2[k - 1], tr2[k - 1 + 1], modes[k - 1]));
+        lemma_grow_decset_one(tr1[k - 1], tr2[k - 1], tr1[k], tr2[k], modes[k - 1]);
+        lemma_grow_trans(primary(tr1[0]), primary(tr1[k - 1]), primary(tr1[k]), primary(tr2[0]), primary(tr2[k - 1]), primary(tr2[k]));
+    }
+}
+
+/// [C14] (auxiliary)
+pub proof fn lemma_grow_decrst_chain(tr1: Seq<Terminal>, tr2: Seq<Terminal>, modes: Seq<DecMode>, k: int)
+    requires
+        0 <= k <= modes.len(), tr1.len() == modes.len() + 1, tr2.len() == modes.len() + 1,
+        tr1[0].wf(), tr2[0].wf(), vis_eq(tr1[0], tr2[0]),
+        forall|i: int| 0 <= i < modes.len() ==> decrst_one(#[trigger] tr1[i], tr1[i + 1], modes[i]),
+        forall|i: int| 0 <= i < modes.len() ==> decrst_one(#[trigger] tr2[i], tr2[i + 1], modes[i]),
+    ensures
+        grows(primary(tr1[0]), primary(tr1[k])), grows(primary(tr2[0]), primary(tr2[k])),
+        push_eq(primary(tr1[0]), primary(tr1[k]), primary(tr2[0]), primary(tr2[k])),
+    decreases k,
+{
+    if k > 0 {
+        lemma_grow_decrst_chain(tr1, tr2, modes, k - 1);
+        lemma_ni_decrst_chain(tr1, tr2, modes, k - 1);
+        assert(decrst_one(tr1[k - 1], tr1[k - 1 + 1], modes[k - 1]));
+        assert(decrst_one(tr2[k - 1], tr2[k - 1 + 1], modes[k - 1]));
+        lemma_grow_decrst_one(tr1[k - 1], tr2[k - 1], tr1[k], tr2[k], modes[k - 1]);
+        lemma_grow_trans(primary(tr1[0]), primary(tr1[k - 1]), primary(tr1[k]), primary(tr2[0]), primary(tr2[k - 1]), primary(tr2[k]));
+    }
+}
+
+/// [C14] (auxiliary)
+pub proof fn lemma_grow_decset(o1: Terminal, o2: Terminal, f1: Terminal, f2: Terminal, fun: Function)
+    requires
+        o1.wf(), o2.wf(), vis_eq(o1, o2), fun is Decset,
+        exec_post(o1, f1, fun), exec_post(o2, f2, fun),
+    ensures
+        grows(primary(o1), primary(f1)), grows(primary(o2), primary(f2)),
+        push_eq(primary(o1), primary(f1), primary(o2), primary(f2)),
+{
+    let modes = fun->Decset_0;
+    let tr1 = choose|tr: Seq<Terminal>| #[trigger] tr.len() == modes@.len() + 1 && tr[0] == o1 && tr[modes@.len() as int] == f1 && (forall|i: int| 0 <= i < modes@.len() ==> decset_one(#[trigger] tr[i], tr[i + 1], modes@[i]));
+    let tr2 = choose|tr: Seq<Terminal>| #[trigger] tr.len() == modes@.len() + 1 && tr[0] == o2 && tr[modes@.len() as int] == f2 && (forall|i: int| 0 <= i < modes@.len() ==> decset_one(#[trigger] tr[i], tr[i + 1], modes@[i]));
+    lemma_grow_decset_chain(tr1, tr2, modes@, modes@.len() as int);
+}
+
+/// [C14] (auxiliary)
+pub proof fn lemma_grow_decrst(o1: Terminal, o2: Terminal, f1: Terminal, f2: Terminal, fun: Function)
+    requires
+        o1.wf(), o2.wf(), vis_eq(o1, o2), fun is Decrst,
+        exec_post(o1, f1, fun), exec_post(o2, f2, fun),
+    ensures
+        grows(primary(o1), primary(f1)), grows(primary(o2), primary(f2)),
+        push_eq(primary(o1), primary(f1), primary(o2), primary(f2)),
+{
+    let modes = fun->Decrst_0;
+    let tr1 = choose|tr: Seq<Terminal>| #[trigger] tr.len() == modes@.len() + 1 && tr[0] == o1 && tr[modes@.len() as int] == f1 && (forall|i: int| 0 <= i < modes@.len() ==> decrst_one(#[trigger] tr[i], tr[i + 1], modes@[i]));
+    let tr2 = choose|tr: Seq<Terminal>| #[trigger] tr.len() == modes@.len() + 1 && tr[0] == o2 && tr[modes@.len() as int] == f2 && (forall|i: int| 0 <= i < modes@.len() ==> decrst_one(#[trigger] tr[i], tr[i + 1], modes@[i]));
+    lemma_grow_decrst_chain(tr1, tr2, modes@, modes@.len() as int);
+}
+
+/// [C14] every control function except a hard reset (and the disabled window resize): the
+/// primary screen's lines only grow at the scrollback/view boundary, identically in both runs
+pub proof fn lemma_grow_step(o1: Terminal, o2: Terminal, f1: Terminal, f2: Terminal, fun: Function)
+    requires
+        o1.wf(), o2.wf(), vis_eq(o1, o2), !(fun is Xtwinops), !(fun is Ris),
+        exec_post(o1, f1, fun), exec_post(o2, f2, fun),
+    ensures
+        grows(primary(o1), primary(f1)), grows(primary(o2), primary(f2)),
+        push_eq(primary(o1), primary(f1), primary(o2), primary(f2)),
+{
+    match fun {
+        Function::Bs => lemma_grow_bs(o1, o2, f1, f2, fun),
+        Function::Cbt(_) => lemma_grow_cbt(o1, o2, f1, f2, fun),
+        Function::Cha(_) => lemma_grow_cha(o1, o2, f1, f2, fun),
+        Function::Cht(_) => lemma_grow_cht(o1, o2, f1, f2, fun),
+        Function::Cnl(_) => lemma_grow_cnl(o1, o2, f1, f2, fun),
+        Function::Cpl(_) => lemma_grow_cpl(o1, o2, f1, f2, fun),
+        Function::Cr => lemma_grow_cr(o1, o2, f1, f2, fun),
+        Function::Ctc(_) => lemma_grow_ctc(o1, o2, f1, f2, fun),
+        Function::Cub(_) => lemma_grow_cub(o1, o2, f1, f2, fun),
+        Function::Cud(_) => lemma_grow_cud(o1, o2, f1, f2, fun),
+        Function::Cuf(_) => lemma_grow_cuf(o1, o2, f1, f2, fun),
+        Function::Cup(_, _) => lemma_grow_cup(o1, o2, f1, f2, fun),
+        Function::Cuu(_) => lemma_grow_cuu(o1, o2, f1, f2, fun),
+        Function::Dch(_) => lemma_grow_dch(o1, o2, f1, f2, fun),
+        Function::Decaln => lemma_grow_decaln(o1, o2, f1, f2, fun),
+        Function::Decrc => lemma_grow_decrc(o1, o2, f1, f2, fun),
+        Function::Decsc => lemma_grow_decsc(o1, o2, f1, f2, fun),
+        Function::Decstbm(_, _) => lemma_grow_decstbm(o1, o2, f1, f2, fun),
+        Function::Decstr => lemma_grow_decstr(o1, o2, f1, f2, fun),
+        Function::Dl(_) => lemma_grow_dl(o1, o2, f1, f2, fun),
+        Function::Ech(_) => lemma_grow_ech(o1, o2, f1, f2, fun),
+        Function::Ed(_) => lemma_grow_ed(o1, o2, f1, f2, fun),
+        Function::El(_) => lemma_grow_el(o1, o2, f1, f2, fun),
+        Function::G1d4(_) => lemma_grow_g1d4(o1, o2, f1, f2, fun),
+        Function::Gzd4(_) => lemma_grow_gzd4(o1, o2, f1, f2, fun),
+        Function::Ht => lemma_grow_ht(o1, o2, f1, f2, fun),
+        Function::Hts => lemma_grow_hts(o1, o2, f1, f2, fun),
+        Function::Ich(_) => lemma_grow_ich(o1, o2, f1, f2, fun),
+        Function::Il(_) => lemma_grow_il(o1, o2, f1, f2, fun),
+        Function::Lf => lemma_grow_lf(o1, o2, f1, f2, fun),
+        Function::Nel => lemma_grow_nel(o1, o2, f1, f2, fun),
+        Function::Print(_) => lemma_grow_print(o1, o2, f1, f2, fun),
+        Function::Rep(_) => lemma_grow_rep(o1, o2, f1, f2, fun),
+        Function::Ri => lemma_grow_ri(o1, o2, f1, f2, fun),
+        Function::Rm(_) => lemma_grow_rm(o1, o2, f1, f2, fun),
+        Function::Scorc => lemma_grow_scorc(o1, o2, f1, f2, fun),
+        Function::Scosc => lemma_grow_scosc(o1, o2, f1, f2, fun),
+        Function::Sd(_) => lemma_grow_sd(o1, o2, f1, f2, fun),
+        Function::Sgr(_) => lemma_grow_sgr(o1, o2, f1, f2, fun),
+        Function::Si => lemma_grow_si(o1, o2, f1, f2, fun),
+        Function::Sm(_) => lemma_grow_sm(o1, o2, f1, f2, fun),
+        Function::So => lemma_grow_so(o1, o2, f1, f2, fun),
+        Function::Su(_) => lemma_grow_su(o1, o2, f1, f2, fun),
+        Function::Tbc(_) => lemma_grow_tbc(o1, o2, f1, f2, fun),
+        Function::Vpa(_) => lemma_grow_vpa(o1, o2, f1, f2, fun),
+        Function::Vpr(_) => lemma_grow_vpr(o1, o2, f1, f2, fun),
+        Function::Decset(_) => lemma_grow_decset(o1, o2, f1, f2, fun),
+        Function::Decrst(_) => lemma_grow_decrst(o1, o2, f1, f2, fun),
+        Function::Ris => {},
+        Function::Xtwinops(_) => {},
+    }
+}
+
+/// [C14] the simulation relation between a terminal with a scrollback limit and one without:
+/// same visible state, and the lines handed out so far followed by the limited terminal's
+/// primary lines are exactly the unlimited terminal's primary lines
+pub open spec fn sim(lim: Terminal, unl: Terminal, out: Seq<LineV>) -> bool {
+    &&& vis_eq(lim, unl)
+    &&& out + lines_v(primary(lim)) =~= lines_v(primary(unl))
+}
+
+/// [C14] executing the same control function on both preserves the simulation
+pub proof fn lemma_c14_fun_step(l0: Terminal, u0: Terminal, l1: Terminal, u1: Terminal, out: Seq<LineV>, fun: Function)
+    requires
+        l0.wf(), u0.wf(), sim(l0, u0, out), !(fun is Xtwinops), !(fun is Ris),
+        exec_post(l0, l1, fun), exec_post(u0, u1, fun),
+    ensures
+        sim(l1, u1, out), l1.wf(), u1.wf(),
+{
+    lemma_ni_step(l0, u0, l1, u1, fun);
+    lemma_grow_step(l0, u0, l1, u1, fun);
+    lemma_exec_post_wf(l0, l1, fun);
+    lemma_exec_post_wf(u0, u1, fun);
+    let a = primary(l0); let b = primary(l1); let c = primary(u0); let d = primary(u1);
+    let lhs = out + lines_v(b);
+    let rhs = lines_v(d);
+    assert((out + lines_v(a)).len() == lines_v(c).len());
+    assert(lhs.len() == rhs.len());
+    assert forall|i: int| 0 <= i < lhs.len() implies lhs[i] == rhs[i] by {
+        if i < out.len() {
+            assert((out + lines_v(a))[i] == lines_v(c)[i]);
+            assert(d.lines@[i].v() == c.lines@[i].v());
+        } else if i < out.len() + a.off() {
+            assert((out + lines_v(a))[i] == lines_v(c)[i]);
+            assert(b.lines@[i - out.len()].v() == a.lines@[i - out.len()].v());
+            assert(d.lines@[i].v() == c.lines@[i].v());
+        } else if i < out.len() + a.off() + (b.len() - a.len()) {
+            let j = i - out.len() - a.off();
+            assert(b.lines@[a.off() + j].v() == d.lines@[c.off() + j].v());
+        } else {
+            let r = i - out.len() - b.off();
+            assert(b.row(r).v() == d.row(r).v());
+        }
+    }
+}
+
+/// what `Terminal::gc` does (the function itself returns `Box<dyn Iterator + '_>` and is outside
+/// Verus; Kani checks this relation on the real code, see kani/buffer.rs k_gc_drop and
+/// kani/terminal.rs): the oldest `e` lines of the active buffer are removed; they are handed out
+/// iff the primary screen is active
+pub open spec fn gc_rel(o: Terminal, f: Terminal, e: int, handed: Seq<LineV>) -> bool {
+    &&& 0 <= e <= o.buffer.off()
+    &&& f.wf()
+    &&& vis_eq(o, f)
+    &&& f.active_buffer_type == o.active_buffer_type
+    &&& lines_v(f.buffer) =~= lines_v(o.buffer).subrange(e, o.buffer.len())
+    &&& lines_v(f.other_buffer) =~= lines_v(o.other_buffer)
+    &&& handed == (if o.active_buffer_type == BufferType::Primary { lines_v(o.buffer).subrange(0, e) } else { Seq::<LineV>::empty() })
+}
+
+/// [C14] a trim on the limited terminal (while the unlimited one takes a silent step that keeps
+/// its lines) moves lines from the terminal to the handed-out stream and preserves the simulation
+pub proof fn lemma_c14_gc_step(l0: Terminal, u0: Terminal, l1: Terminal, u1: Terminal, out: Seq<LineV>, e: int, handed: Seq<LineV>)
+    requires
+        l0.wf(), u0.wf(), sim(l0, u0, out),
+        gc_rel(l0, l1, e, handed),
+        u1.wf(), vis_eq(u0, u1), u1.active_buffer_type == u0.active_buffer_type,
+        lines_v(primary(u1)) =~= lines_v(primary(u0)),
+    ensures
+        sim(l1, u1, out + handed),
+{
+    lemma_vis_eq_trans(l0, u0, u1);
+    lemma_vis_eq_trans(l0, l1, l1);
+    lemma_vis_eq_trans(l1, l0, u1);
+}
+
+/// one step of a session without hard reset or resize, as seen by the pair (limited, unlimited)
+pub open spec fn c14_step(l0: Terminal, u0: Terminal, o0: Seq<LineV>, l1: Terminal, u1: Terminal, o1: Seq<LineV>) -> bool {
+    ||| (exists|fun: Function| !(fun is Xtwinops) && !(fun is Ris) && #[trigger] exec_post(l0, l1, fun) && exec_post(u0, u1, fun) && o1 == o0)
+    ||| (exists|e: int, handed: Seq<LineV>| #[trigger] gc_rel(l0, l1, e, handed) && u1.wf() && vis_eq(u0, u1)
+            && u1.active_buffer_type == u0.active_buffer_type && lines_v(primary(u1)) =~= lines_v(primary(u0)) && o1 == o0 + handed)
+}
+
+/// [C14] THE SCROLLBACK THEOREM.  Any session of control functions (no RIS, no resize) interleaved
+/// with trims, run on a terminal with a scrollback limit and on one without, both started from
+/// the same state with nothing handed out: at every point the lines handed out so far followed
+/// by the limited terminal's primary lines are exactly the unlimited terminal's primary lines -
+/// same order, each exactly once, cell-for-cell and wrap-mark identical.
+pub proof fn lemma_c14_session(ls: Seq<Terminal>, us: Seq<Terminal>, outs: Seq<Seq<LineV>>, n: int, k: int)
+    requires
+        0 <= k <= n, ls.len() == n + 1, us.len() == n + 1, outs.len() == n + 1,
+        ls[0].wf(), us[0].wf(), sim(ls[0], us[0], outs[0]),
+        forall|i: int| 0 <= i < n ==> c14_step(#[trigger] ls[i], us[i], outs[i], ls[i + 1], us[i + 1], outs[i + 1]),
+    ensures
+        sim(ls[k], us[k], outs[k]), ls[k].wf(), us[k].wf(),
+    decreases k,
+{
+    if k > 0 {
+        lemma_c14_session(ls, us, outs, n, k - 1);
+        let i = k - 1;
+        assert(c14_step(ls[i], us[i], outs[i], ls[i + 1], us[i + 1], outs[i + 1]));
+        if exists|fun: Function| !(fun is Xtwinops) && !(fun is Ris) && #[trigger] exec_post(ls[i], ls[i + 1], fun) && exec_post(us[i], us[i + 1], fun) && outs[i + 1] == outs[i] {
+            let fun = choose|fun: Function| !(fun is Xtwinops) && !(fun is Ris) && #[trigger] exec_post(ls[i], ls[i + 1], fun) && exec_post(us[i], us[i + 1], fun) && outs[i + 1] == outs[i];
+            lemma_c14_fun_step(ls[i], us[i], ls[i + 1], us[i + 1], outs[i], fun);
+        } else {
+            let (e, handed) = choose|e: int, handed: Seq<LineV>| #[trigger] gc_rel(ls[i], ls[i + 1], e, handed) && us[i + 1].wf() && vis_eq(us[i], us[i + 1])
+                && us[i + 1].active_buffer_type == us[i].active_buffer_type && lines_v(primary(us[i + 1])) =~= lines_v(primary(us[i])) && outs[i + 1] == outs[i] + handed;
+            lemma_c14_gc_step(ls[i], us[i], ls[i + 1], us[i + 1], outs[i], e, handed);
+        }
+    }
+}
+
+/// [C13] after a trim the scrollback is within the hard limit (the relation `Buffer::gc`
+/// satisfies on the real code is checked by Kani, k_gc_drop): stated here as the consequence for
+/// lines(): at most rows + L + L/10 lines, exactly `rows` when L = 0
+pub proof fn lemma_c13_bound(b: Buffer, l: usize)
+    requires
+        b.wf(), !b.trim_needed,
+        b.scrollback_limit == Some(ScrollbackLimit { soft: l, hard: (l + l / 10) as usize }),
+        l <= crate::MEM_MAX,
+    ensures
+        b.len() <= b.rows + l + l / 10,
+        l == 0 ==> b.len() == b.rows,
 {
 }
 
